@@ -628,6 +628,8 @@ def _ref_cvc_wrap(c):
     f = {k: v for k, v in c.items() if k != 'privkey'}
     import bign
     n = len(c['privkey'])
+    if n not in LEVEL or not bign.privkey_is_valid(LEVEL[n], c['privkey']):
+        return {'ret': lambda r: r != 0}          # btok.h: privkey_len in {24, 32, 48, 64}, a valid key
     chk = S.cvc_check(dict(f, pubkey=f.get('pubkey') or bign.enc_point(LEVEL[n], bign.pubkey_calc(LEVEL[n], c['privkey']))))
     if chk != 'OK':
         return {'ret': lambda r: r != 0}          # btok.h: "an error code"; the class is not documented
